@@ -231,56 +231,12 @@ class History(c01.History):
         self._before = self.observe()[0]
         got = verdict_any(real, ann)
         # ---- model
-        m2 = self.m.copy()
+        from vf.models.ptcheck import model_pytree_check
+
+        allowed, newm, tent, new_struct = model_pytree_check(self.m, meanings, sname, desc)
         structs2 = dict(self.struct_strs)
-        tent = 0
-        allowed = None
-        lvs = pt.leaves(desc)
-        struct = pt.structure(desc)
-        if desc[0] == "none":
-            allowed, newm = {dl.TRUE}, self.m  # a top-level None is accepted and binds nothing
-        else:
-            problems = set()
-            label_struct = None
-            if sname:
-                pieces = sname.split()
-                if len(pieces) == 1:
-                    label_struct = sname
-                    if sname in m2.structs:
-                        if m2.structs[sname] != struct:
-                            problems.add(dl.FALSE)
-                    else:
-                        m2.structs[sname] = struct
-                        structs2[sname] = str(jtu.tree_structure(real))
-                        tent += 1
-                else:
-                    label_struct = sname
-                    if any(p not in m2.structs for p in pieces):
-                        problems.add(dl.ANNERR)
-                    elif pt.compose_all([m2.structs[p] for p in pieces]) != struct:
-                        problems.add(dl.FALSE)
-            if not problems:
-                for i, lf in enumerate(lvs):
-                    if isinstance(lf[1], str):
-                        problems.add(dl.FALSE)
-                        break
-                    label = f"(Leaf {i} in structure {label_struct}) " if label_struct else None
-                    o = dl.match(meanings, lf[1], m2, label=label, in_structured=1 if label_struct else 0)
-                    if dl.TRUE in o.allowed and len(o.allowed) == 1:
-                        tent += sum(1 for k in o.ctx.single if k not in m2.single) + sum(1 for k in o.ctx.variadic if k not in m2.variadic)
-                        m2 = o.ctx
-                    elif dl.TRUE in o.allowed:
-                        problems |= set(o.allowed)  # '#'-size-1 on an unbound symbolic: either
-                        m2 = o.ctx
-                    else:
-                        problems |= set(o.allowed)
-                        break
-            if not problems:
-                allowed, newm = {dl.TRUE}, m2
-            elif dl.TRUE in problems:
-                allowed, newm = problems, m2
-            else:
-                allowed, newm = problems, self.m
+        if new_struct:
+            structs2[new_struct] = str(jtu.tree_structure(real))
         if got not in allowed:
             raise Violation("verdict", self.case(), f"PyTree[Shaped[ndarray,{spec!r}],{sname!r}] on {s['tree']}: {got}, reference allows {sorted(allowed)}")
         if got == dl.TRUE:
